@@ -34,6 +34,10 @@ func (e *Engine) execInstr(s *State, in ssa.Instruction) []*State {
 			set(x, &Val{A: &Addr{K: AField, Base: p.A.Base, SKey: p.A.SKey, Path: p.A.Path + "." + f.Name(), T: f.Type(), Fresh: p.A.Fresh}, NN: true})
 			break
 		}
+		if p.A != nil && p.A.K == AGlobal {
+			set(x, &Val{A: &Addr{K: AGlobal, Glob: p.A.Glob, Path: p.A.Path + "." + f.Name(), T: f.Type()}, NN: true})
+			break
+		}
 		if p.A != nil {
 			e.unsupportedf("field address through %v pointer at %s", p.A.K, e.P.Pos(in.Pos()))
 		}
@@ -158,6 +162,14 @@ func (e *Engine) execAlloc(s *State, x *ssa.Alloc) *Val {
 		z := e.zero(t)
 		e.storePtr(s, &Val{L: []string{r}}, x.Type(), z, nil)
 		s.FreshRefs[r] = true
+		if !e.allocEscapes(x) {
+			np := make(map[string]bool, len(s.Private)+1)
+			for k := range s.Private {
+				np[k] = true
+			}
+			np[r] = true
+			s.Private = np
+		}
 		return &Val{L: []string{r}, NN: true, Fresh: true}
 	case *types.Array:
 		r := e.allocRef(s, "arr")
